@@ -249,9 +249,7 @@ def createPolicy (g : GraphD) (f : Flags) : Except String Policy := do
     | some n => pure { kind := .gamma, n := n, start := start }
   | some "closed_loop" =>
     match g.concurrency, g.invocations with
-    | some c, some n =>
-      if c = 0 || n = 0 then .error "RuntimeError" else
-      pure { kind := .closedLoop, n := n, conc := c, start := start }
+    | some c, some n => mkClosedLoop c n start
     | _, _ => .error "ValueError"
   | _ => .error "NotImplementedError"
 
